@@ -153,7 +153,10 @@ func genUnits(r *sim.Rng, p *PubPlan, prof RelayProfile, n int) {
 		step := uint32(20 + r.Intn(30))
 		if r.Bool(prof.TsWeird * 0.3) {
 			// non-monotonic or jump
-			switch r.Intn(3) {
+			switch r.Intn(4) {
+			case 3:
+				// hours of stream time later (what a long-running stream reaches): crosses 2^30 ticks of 90 kHz
+				ts += uint32(11800000 + r.Intn(300000))
 			case 0:
 				if ts > 500 {
 					ts -= uint32(r.Intn(400))
